@@ -255,7 +255,6 @@ func cmdSelftest(args []string) int {
 	return 0
 }
 
-
 // applyPatch applies the unified diff to scratch copies of the files it names and puts the results in ov.
 func (v *Variant) applyPatch(dir string, ov map[string][]byte) error {
 	pf := v.Patch
